@@ -33,6 +33,7 @@ type Profile struct {
 	DupSigners  bool
 	GovKinds    []string // which modules' parameters governance changes (default: all four)
 	PCheck      int      // percent of txs that are submitted to CheckTx only (mempool admission)
+	Crashes     bool     // blocks carry restart points (C01)
 	GasSweep    bool     // some txs get a gas limit that runs out at an ante / message boundary
 	MultiPct    int      // percent of txs with several messages (default 10)
 }
@@ -481,6 +482,10 @@ func GenScenario(t *rapid.T, p *Profile) *Scenario {
 			op := GenOp(t, p, kind, nAcc)
 			op.Actor, op.Named = -1, -1
 			blk.Txs = append(blk.Txs, Tx{Ops: []Op{op}, Wrap: WrapGov})
+		}
+		if p.Crashes && oneIn(t, 4, "crash") {
+			blk.Crash = uniRange(t, 1, 4, "crashPhase")
+			blk.CrashK = uniRange(t, 0, 4, "crashK")
 		}
 		s.Blocks = append(s.Blocks, blk)
 	}
